@@ -1035,7 +1035,7 @@ func checkC13(an *Analysis, add func(Violation)) {
 			continue
 		}
 		// dates on the wire
-		if len(c.Sends) == 1 {
+		if len(c.Sends) == 1 && !an.skippedDayArg(c) {
 			want := model.Encode(c.St.Op, &c.St.Args)
 			if got := c.Sends[0].Data; string(got) != string(want) {
 				at := firstDiff(got, want)
